@@ -16,7 +16,7 @@ class Clock:
 
     def __call__(self):
         v = self.t
-        self.events.append(dict(e="clock", v=v))
+        self.events.append(dict(e="clock", v=str(v)))
         self.t += self.pattern[self.k % len(self.pattern)]
         self.k += 1
         return v
@@ -53,7 +53,7 @@ async def run_scenario(sc):
         if proto.startswith("v3"):
             if sc.get("disco"):
                 ag.disco_delta = {"echo": 0, "plus1": 1, "minus1": -1}[sc["disco"]]
-                ag.on_discovery = lambda req: events.append(dict(e="disco", msgid=req["msgid"], reply_msgid=req["msgid"] + ag.disco_delta))
+                ag.on_discovery = lambda req: events.append(dict(e="disco", msgid=str(req["msgid"]), reply_msgid=str(req["msgid"] + ag.disco_delta)))
             else:
                 await c.get(OID("1.3.6.1.2.1.1.1.0")) if False else None
                 # warm-up: run discovery before the stepping clock is installed
@@ -63,7 +63,7 @@ async def run_scenario(sc):
 
         def on_request(req):
             kind = KIND.get(req["ptype"], "other")
-            events.append(dict(e="req", kind=kind, reqid=req["reqid"], oids=[absoid(o) for o, _, _ in req["vbs"]],
+            events.append(dict(e="req", kind=kind, reqid=str(req["reqid"]), oids=[absoid(o) for o, _, _ in req["vbs"]],
                                vals=[abs_enc(t, cc) for _, t, cc in req["vbs"]],
                                nonrep=req["f1"] if kind == "bulk" else 0, maxrep=req["f2"] if kind == "bulk" else 0,
                                es=0 if kind == "bulk" else req["f1"], ei=0 if kind == "bulk" else req["f2"],
@@ -84,6 +84,14 @@ async def run_scenario(sc):
                 f["reqid"] -= 1
             elif pert == "id_arb":
                 f["reqid"] = 7
+            elif pert == "id_p32":
+                f["reqid"] += 2 ** 32
+            elif pert == "id_m32":
+                f["reqid"] -= 2 ** 32
+            elif pert == "id_neg":
+                f["reqid"] = -f["reqid"] if f["reqid"] else 1
+            elif pert == "id_p64":
+                f["reqid"] += 2 ** 64
             elif pert == "wrong_comm":
                 f["community"] = sc.get("wrong_comm", "private").encode()
             elif pert == "wrong_ver":
@@ -94,7 +102,7 @@ async def run_scenario(sc):
             return f
 
         def on_reply(req, f):
-            events.append(dict(e="resp", reqid=f["reqid"], es=f["es"], ei=f["ei"],
+            events.append(dict(e="resp", reqid=str(f["reqid"]), es=f["es"], ei=f["ei"],
                                vbs=[[absoid(o), abs_enc(v[0], dec_tlv(v)[1:3] and v[dec_tlv(v)[1]:dec_tlv(v)[2]])] for o, v in f["vbs"]],
                                commok=f.get("community", b"public") == b"public", verok=f.get("version", req["version"]) == req["version"]))
         ag.on_request, ag.perturb, ag.on_reply = on_request, perturb, on_reply
